@@ -192,6 +192,29 @@ impl DiscoveredReaderData {
     }
 }
 
+#[cfg(feature = "verif_hooks")]
+#[doc(hidden)]
+impl DiscoveredReaderData {
+    /// Verification hook: construct a value from all of its fields.
+    pub fn verif_new(
+        dds_subscription_data: SubscriptionBuiltinTopicData,
+        reader_proxy: ReaderProxy,
+    ) -> Self {
+        Self {
+            dds_subscription_data,
+            reader_proxy,
+        }
+    }
+    /// Verification hook: field access.
+    pub fn verif_dds_subscription_data(&self) -> &SubscriptionBuiltinTopicData {
+        &self.dds_subscription_data
+    }
+    /// Verification hook: field access.
+    pub fn verif_reader_proxy(&self) -> &ReaderProxy {
+        &self.reader_proxy
+    }
+}
+
 #[cfg(test)]
 mod tests {
     use super::*;
